@@ -16,8 +16,8 @@
    delete_refuted_* theorems (reproduced on the real Butler; known findings).  Since df0ecd0 the check that makes
    (3) true for put / ingest is part of the code (unchecked_*_refused, writes_inside_root_partial). *)
 From Coq Require Import String Ascii List Bool NArith.
-From V Require Import Model.Template Gen.TemplateGen Gen.TrashGen Model.Trash
-                      Proofs.TrashProofs Proofs.TrashProofs2 Proofs.TrashProofs3 Proofs.TrashProofsX1 Proofs.TrashProofsX2.
+From V Require Import Model.Template Gen.TemplateGen Gen.TrashGen Model.Trash Model.TrashCheck
+                      Proofs.TrashProofs Proofs.TrashProofs2 Proofs.TrashProofs3 Proofs.TrashProofsX1 Proofs.TrashProofsX2 Proofs.TrashProofsX3.
 Import ListNotations.
 Open Scope string_scope.
 
@@ -114,9 +114,10 @@ Print Assumptions direct_never_deleted.
 (* the model's `step` is the code of the working tree: FileDatastore builds the location of a new artifact with
    trusted_path=False at both sites (GEN_LOCATION_CHECKED, df0ecd0) and StoredFileInfo.file_location builds the location of a
    relative RECORD path with trusted_path=False (GEN_RECORD_CHECKED, 5539e78); and _finishIngest / ingest_zip refuse a
-   dataset the datastore already holds BEFORE any transfer (GEN_INGEST_CHECKED, 2da36a1); the three flags are regenerated from
+   dataset the datastore already holds BEFORE any transfer (GEN_INGEST_CHECKED, 2da36a1), and both template sites go through
+   _location_from_template, which demands that the recorded path leads back to the written location (GEN_WRITE_RULE, a79f022); the four flags are regenerated from
    fileDatastore.py / stored_file_info.py / _location.py on every run; reverting any of the commits makes this theorem fail *)
-Theorem model_is_the_code : step_v GEN_LOCATION_CHECKED GEN_RECORD_CHECKED GEN_INGEST_CHECKED = step.
+Theorem model_is_the_code : step_v GEN_LOCATION_CHECKED GEN_RECORD_CHECKED GEN_INGEST_CHECKED GEN_WRITE_RULE = step.
 Proof. reflexivity. Qed.
 Print Assumptions model_is_the_code.
 
@@ -191,7 +192,7 @@ Print Assumptions never_touch_foreign_unconditional_target.
 
 (* a put whose guards hold stores its file exactly at the location its record names *)
 Theorem put_coherent_stores : forall s id p ext c,
-  refuse_location true p = false -> held_any s [id] = false -> inside (target_loc p ext) = true ->
+  refuse_w true true p = false -> held_any s [id] = false -> inside (target_loc p ext) = true ->
   put_coherent (Put id (FOk p) ext c) = true ->
   let s' := fst (step s (Put id (FOk p) ext c)) in
   snd (step s (Put id (FOk p) ext c)) = Done
@@ -245,17 +246,17 @@ Print Assumptions containment_refuted_without_fix.
 
 Theorem outside_put_refuted_without_fix :
   exists run s', fget (fs st0) sent0 = Some 2%N
-    /\ step_v false false false st0 (Put 1 (fmt run) ".yaml" 9) = (s', Refused RuntimeErr)
+    /\ step_v false false false false st0 (Put 1 (fmt run) ".yaml" 9) = (s', Refused RuntimeErr)
     /\ fget (fs s') sent0 = None /\ inside sent0 = false.
 Proof. exact outside_put_refuted_without_fix_p. Qed.
 Print Assumptions outside_put_refuted_without_fix.
 
 Theorem outside_ingest_refuted_without_fix :
   exists run s1,
-    step_v false false false st0 (Ingest Copy [1%N] (fmt run) ".yaml" stage0) = (s1, Done)
+    step_v false false false false st0 (Ingest Copy [1%N] (fmt run) ".yaml" stage0) = (s1, Done)
     /\ fget (fs st0) sent0 = Some 2%N /\ fget (fs s1) sent0 = Some 1%N
     /\ recs_inside s1 = false
-    /\ fget (fs (fst (step_v false false false s1 (Prune [1%N])))) sent0 = None.
+    /\ fget (fs (fst (step_v false false false false s1 (Prune [1%N])))) sent0 = None.
 Proof. exact outside_ingest_refuted_without_fix_p. Qed.
 Print Assumptions outside_ingest_refuted_without_fix.
 
@@ -269,7 +270,7 @@ Theorem delete_refuted_alias :
 Proof. exact alias_refuted_p. Qed.
 Print Assumptions delete_refuted_alias.
 
-(* REPAIRED findings F-C09-reingest / F-C09-zip-reingest (2da36a1).  Before it (step_noichk = step_v true true false) the target
+(* REPAIRED findings F-C09-reingest / F-C09-zip-reingest (2da36a1).  Before it (step_noichk = step_v true true false true) the target
    was overwritten first and the rollback of the refused record insert removed the artifact of the dataset that is still stored *)
 Theorem delete_refuted_reingest_without_fix :
   exists s x l c,
@@ -309,7 +310,7 @@ Theorem reingest_refused_now :
 Proof. exact reingest_refused_now_p. Qed.
 Print Assumptions reingest_refused_now.
 
-(* REPAIRED finding F-C09-nested-escape (5539e78).  Before it (step_nofix = step_v true false true: df0ecd0 in, record paths not
+(* REPAIRED finding F-C09-nested-escape (5539e78).  Before it (step_nofix = step_v true false true false: df0ecd0 in, record paths not
    checked at use time) ingest(copy) into a run that encodes ".." THREE times was accepted -- the written location is inside
    the root -- the record it leaves names a location OUTSIDE the root, and pruning the dataset deleted the foreign file there *)
 Theorem foreign_refuted_nested_escape_without_fix :
@@ -333,19 +334,69 @@ Theorem foreign_refuted_nested_escape_put_without_fix :
 Proof. exact foreign_refuted_nested_escape_put_p. Qed.
 Print Assumptions foreign_refuted_nested_escape_put_without_fix.
 
-(* with 5539e78: the ingest is still accepted and still leaves such a record (recs_inside is NOT an invariant), but prune is
-   refused with ValueError and the foreign file keeps its content.  Residue (not a C09 clause): the dataset sits in the trash
-   with its record, its artifact inside the root stays, and every later emptyTrash is refused at that row *)
+(* the code before a79f022 (step_nowrule) still ACCEPTED the ingest and left such a record; from that state the code as it is
+   refuses prune and emptyTrash at USE time (5539e78), the foreign file keeps its content -- the residue (a dataset that can be
+   neither read nor removed and blocks every later emptyTrash) that a79f022 makes unreachable (no_poisoned_rows_all_histories) *)
 Theorem nested_escape_refused_now :
-  let s1 := fst (step st1 nested_ingest) in
+  let s1 := fst (step_nowrule st1 nested_ingest) in
   let s2 := fst (step s1 (Prune [1%N])) in
-    snd (step st1 nested_ingest) = Done /\ recs_inside s1 = false
+    snd (step_nowrule st1 nested_ingest) = Done /\ recs_inside s1 = false
     /\ snd (step s1 (Prune [1%N])) = Refused ValueErr
     /\ fget (fs s2) sentA = Some 3%N
     /\ recs s2 = recs s1 /\ live s2 = [] /\ trash s2 = [1%N]
-    /\ fget (fs s2) ["%2E%2E"; "sentinel"; "dtD"; "dtD_Cam_det1_%2E%2E_sentinel.yaml"] = Some 1%N.
+    /\ fget (fs s2) ["%2E%2E"; "sentinel"; "dtD"; "dtD_Cam_det1_%2E%2E_sentinel.yaml"] = Some 1%N
+    /\ snd (step s2 EmptyTrash) = Refused ValueErr.
 Proof. exact nested_escape_refused_now_p. Qed.
 Print Assumptions nested_escape_refused_now.
+
+(* with a79f022 (step): the name is refused at WRITE time, for ingest and for put, state unchanged *)
+Theorem nested_escape_refused_at_write :
+  step st1 nested_ingest = (st1, Refused ValueErr) /\ step st1 nested_put = (st1, Refused ValueErr)
+  /\ (exists p, fmt1 run3 = FOk p /\ checked true p = true /\ write_rule p = false).
+Proof. exact nested_escape_refused_at_write_p. Qed.
+Print Assumptions nested_escape_refused_at_write.
+
+(* created_records_lead_back, PARTIAL in one respect: the decidable premise `ingest_leads_back p ext` / `put_leads_back p ext`
+   (the record text, read back, names the written location) is evaluated by vm_compute on every template+location case
+   (chk_path: accepted by the write-time rule => leads back) but is not derived from `write_rule p` for all strings -- the rule
+   is checked by the code on the text WITHOUT the extension.  What IS proved for every state and every accepted ingest / put:
+   the rule held, the records are exactly these texts, the written location is inside the root and holds the file. *)
+Theorem created_records_lead_back_partial : forall s m ids p ext src s',
+  step s (Ingest m ids (FOk p) ext src) = (s', Done) -> good_ext ext = true -> ingest_leads_back p ext = true ->
+  write_rule p = true
+  /\ (forall id, In id ids -> In (id, target_text p ext) (recs s'))
+  /\ loc (target_text p ext) = target_loc p ext
+  /\ inside (target_loc p ext) = true
+  /\ fget (fs s') (target_loc p ext) <> None.
+Proof. exact created_records_lead_back_ingest_p. Qed.
+Print Assumptions created_records_lead_back_partial.
+
+Theorem created_records_lead_back_put_partial : forall s id p ext c s',
+  step s (Put id (FOk p) ext c) = (s', Done) -> good_ext ext = true -> put_leads_back p ext = true ->
+  write_rule p = true
+  /\ In (id, put_record p ext) (recs s')
+  /\ loc (put_record p ext) = target_loc p ext
+  /\ inside (target_loc p ext) = true.
+Proof. exact created_records_lead_back_put_p. Qed.
+Print Assumptions created_records_lead_back_put_partial.
+
+(* guard (4) as an INVARIANT: one step keeps "every relative record resolves inside the root" when the records the operation
+   itself can create do (op_recs_ok: a condition on the operation alone, no state) ... *)
+Theorem recs_inside_step : forall s x, recs_inside s = true -> op_recs_ok x = true -> recs_inside (fst (step s x)) = true.
+Proof. exact recs_inside_step_p. Qed.
+Print Assumptions recs_inside_step.
+
+(* ... hence for EVERY history from the empty record table (any files on disk) whose operations satisfy op_recs_ok, at every
+   point: guard (4) holds, no record row can stop emptyTrash, and emptyTrash / prune / removeRuns are never refused at use time *)
+Theorem no_poisoned_rows_all_histories : forall files h,
+  forallb op_recs_ok h = true ->
+  let s := run (init_state files) h in
+    recs_inside s = true
+    /\ (forall r, In r (recs s) -> poison s (snd r) = false)
+    /\ snd (step s EmptyTrash) = Done
+    /\ (forall ids, snd (step s (Prune ids)) = Done /\ snd (step s (RemoveRun ids)) = Done).
+Proof. exact no_poisoned_rows_all_histories_p. Qed.
+Print Assumptions no_poisoned_rows_all_histories.
 
 (* guard (5) fails on "a%2eb": put is refused (FileNotFoundError) and leaves the formatter's file behind -- an orphan INSIDE
    the root, no record, nothing outside touched (replayed: corpus/C09 11; not a C09 violation) *)
@@ -419,3 +470,12 @@ Proof. exact demo_guarded2. Qed.
 
 Example demo_is_ops_ok : all_ops_ok demo = true /\ all_ops_ok [nested_ingest; nested_put; Prune [1%N; 2%N]] = true.
 Proof. exact demo_ops_ok. Qed.
+
+Example leads_back_on_names :
+  forallb (fun run => match fmt run with
+                      | FOk p => refuse_w true true p || (ingest_leads_back p ".yaml" && put_leads_back p ".yaml")
+                      | _ => true end)
+          ["r1"; "u/v"; "a b"; "a#b"; "a%2fb"; "a%4ab"; "a%41b"; "a%2541b"; "a%252541b"; "x%2ey"; "%25252E%25252E/sentinel"; "a%"; "a%zz"] = true
+  /\ forallb op_recs_ok demo = true /\ forallb op_recs_ok hash_hist = true
+  /\ forallb op_recs_ok [nested_ingest; nested_put; dot_put] = true.
+Proof. exact leads_back_examples. Qed.
